@@ -7,7 +7,7 @@ from typing import Optional
 from . import actions, repo
 from .common import AnalysisError, Check, norm_stmt, parse_py
 from .ir import Cut, Gather, Group, Look, Opt, Ref, Rep, Tok, walk_alt_items
-from .pyflow import Index, own_nodes
+from .pyflow import CFG, Index, own_nodes
 
 FLAGS = ("_call_macro", "_with_macro", "_proc_macro")
 
@@ -110,6 +110,18 @@ def rule_m3(chk: Check, ix: Index, ir, rule_id: str = "M3-flag-typestate"):
                                 f"after `{start_rule}` the alternative must capture the raw text and its action (or the capture routine) "
                                 f"must switch `{flag}` off; action calls {sorted(calls)}, resetting helpers {sorted(reset_helpers)}, "
                                 f"capture routines that reset {sorted(reset_capture)}")
+    # a helper that switches a flag off must do so on every path to its exits (an early return would leave raw-capture
+    # mode on for everything that follows)
+    for flag, val, f, n in writes:
+        if val is not False or f.cls != "Parser":
+            continue
+        cfg = CFG(f.node)
+        node = next((c for c in cfg.nodes if c.stmt is n), None)
+        chk.count(rule_id)
+        ok = node is not None and cfg.must_pass(cfg.entry.id, [cfg.exit.id], [node.id])
+        chk.require(ok, rule_id, f"{flag}:{f.qual}:reset-on-all-paths", f"{f.rel}:{n.lineno}",
+                    f"`{f.qual}` can return without executing `{norm_stmt(n)}`: after such a call raw-capture mode stays on and the "
+                    f"rest of the source is tokenized differently")
     # resets in the capture routines sit in the closing-delimiter branches
     f = ix.get("Tokenizer.consume_macro_params")
     chk.count(rule_id)
@@ -149,6 +161,17 @@ def rule_n2(chk: Check, ix: Index, ir, rule_id: str = "N2-path-token"):
              any(norm_stmt(s) == "self._path_token = None" for s in n.body) for n in own_nodes(cf.node))
     chk.require(ok, rule_id, f"{cf.qual}:clear-with-read", cf.where,
                 "the branch that reads the pending path token must also clear it")
+    # every path through the consumer either clears the token or has seen it to be falsy
+    cfg = CFG(cf.node)
+    clear_nodes = [c.id for c in cfg.nodes if c.stmt is not None and isinstance(c.stmt, ast.Assign)
+                   and norm_stmt(c.stmt) == "self._path_token = None"]
+    tests = [c.id for c in cfg.nodes if c.kind == "test" and "self._path_token" in c.label]
+    reach = cfg.reach([cfg.entry.id], avoid=clear_nodes,
+                      edge_ok=lambda a, b, lab: not (a in tests and lab == "F"))
+    chk.count(rule_id)
+    chk.require(cfg.exit.id not in reach, rule_id, f"{cf.qual}:clear-on-all-paths", cf.where,
+                f"`{cf.qual}` has a path to its return on which the pending path token is neither cleared nor known to be unset: it "
+                f"then attaches itself to the next string literal parsed")
     # grammar: rules whose action calls the setter may only be referenced from rules whose every action calls the consumer
     set_rules = {r.name for r, k, a, h in setters_in_actions(ir, ix, {setter})}
     chk.count(rule_id)
